@@ -199,10 +199,10 @@ PROPS = {
                        "counters, admission only below the limit, a rejection adds nothing, the window start moves only when >= duration old, idle >= 2*duration "
                        "=> admitted with a clean bucket, an unknown key behaves like a cleaned-up one, other keys' buckets are untouched, cleanup removes only "
                        "keys idle >= 2*duration and leaves only younger ones. U8h (Verus) lifts the step contract to histories: counters stay in [0, limit], "
-                       "at most `limit` admissions per window, window starts >= duration apart.",
+                       "at most `limit` admissions per window, window starts >= duration apart, and - by induction over arbitrary attempt histories of a key "
+                       "(lemma_two_limit) - never more than 2*limit admissions within any interval of length `duration`.",
         "not_covered": ["limit > 2^24: open known finding (f32 counter stalls)", "durations that are not whole seconds (start() builds them with Duration::from_secs) and > 366 days",
                         "more than two simultaneously tracked keys (model map has two slots; the step is independent of the other slot's contents, which are arbitrary)",
-                        "the counting step from (<= limit per window, windows >= duration apart) to '<= 2*limit in any interval of length duration' is a paper argument (DESIGN.md)",
                         "'tracked keys limited to those seen in the last four durations': only the per-call cleanup contract is proved; cleanup runs on admitted attempts only"],
         "assumptions": ["std HashMap::{entry, or_insert, retain, len} behave like the association-list model", "tokio Instant::now is monotone; both reads inside one call return the same instant"],
     },
